@@ -1341,6 +1341,22 @@ func checkFilter(c FilterCase) error {
 				return fmt.Errorf("step %d (%s %q %d %d): chunk %d does not satisfy the predicate but was kept (input %v, result %v)", step, f.Kind, f.S, f.A, f.B, i, curIdx, got)
 			}
 		}
+		if f.Kind == "pagerange" {
+			// "chunks within a page range" has two coherent readings - contained in the range, or sharing a page with
+			// it - and the result must follow ONE of them for the whole collection (a predicate that keeps some
+			// partially overlapping chunks and drops others, e.g. by looking at the end points only, follows neither)
+			contained, sharing := true, true
+			for _, i := range curIdx {
+				s := c.Chunks[i]
+				inside := s.PageStart >= f.A && s.PageEnd <= f.B
+				overlap := s.PageEnd >= f.A && s.PageStart <= f.B
+				contained = contained && in[i] == (inside && overlap)
+				sharing = sharing && in[i] == overlap
+			}
+			if !contained && !sharing {
+				return fmt.Errorf("step %d (pagerange %d-%d): the result %v of input %v is neither the chunks contained in the range nor the chunks sharing a page with it", step, f.A, f.B, got, curIdx)
+			}
+		}
 		cur, curIdx = next, got
 	}
 	// originals untouched
